@@ -4,23 +4,35 @@ baton one primitive at a time — fully deterministic) vs the Lean automaton, pl
 (at most one holder; a holder can release; a dead owner's lock can be acquired) on the real code."""
 import errno
 import os
+import pathlib
+import shutil
 import sys
+import tempfile
 import threading
 
 from twisted.python import lockfile
 
 HEADLINE = "TwistedProps.C50.mutual_exclusion_partial (+ mutual_exclusion_counterexample)"
 RULE = ("schedules of events L<i>/U<i> (enter lock()/unlock()), S<i> (run process i's pending primitive and the Python "
-        "up to its next primitive), X<i> (process dies/exits) over 1..4 processes sharing one lock path, initial link "
-        "absent / left by a dead pid / owned by a live non-participant / by a pid answering EPERM; state-exhaustive "
+        "up to its next primitive), X<i> (process dies/exits), B<i> (a NEW process with a fresh FilesystemLock object is "
+        "born under the pid of a dead one that the link does not name: pid reuse) over 1..4 processes sharing one lock "
+        "path, initial link absent / left by a dead pid (participant or not) / owned by a live non-participant / by a pid "
+        "answering EPERM; process i has pid base+i with base from {1, 9, 99, 100, 255, 256, 300, 2^15-1, 2^15, 2^16-1, 2^16, "
+        "~2^22, 2^31-12} (digit-length, small-int-cache, pid_max boundaries) and spells the lock path as str, bytes "
+        "(readlink then answers bytes) or a pathlib path, mixed between the processes of one run; state-exhaustive "
         "breadth-first exploration of the real code for fixed per-process programs (every reachable state and every "
-        "edge out of it is a case) + seeded random walks; distinct = (n, initial link class, crashes?, max simultaneous "
-        "holders, set of call outcomes, set of program counters visited)")
+        "edge out of it is a case; crash and birth budgets) + seeded random walks; plus oracle-only runs of the UNPATCHED "
+        "module (real os.symlink/readlink/kill/remove, real pids: own, a reaped child, the parent) on a temporary "
+        "directory, random sequences of lock/unlock on two objects (str and bytes path) and planted dead/live links; "
+        "distinct = (n, initial link class, crashes?, births?, max simultaneous holders, set of call outcomes, set of "
+        "program counters visited, pid magnitude class, path spellings) resp. the set of (op, link before, outcome)")
 ASSUMES = [
     "POSIX branch of lockfile.py (_windows False, kill available); symlink/readlink/kill/remove are each atomic "
     "(the guarantee the class docstring relies on) and nothing else touches the lock path",
     "the symlink target is a decimal pid (a foreign non-numeric target makes int(pid) raise ValueError out of lock())",
-    "processes have distinct pids and a dead pid is not reused while the lock path names it",
+    "processes have distinct pids and a dead pid is not reused while the lock path names it (event B is refused then); "
+    "reuse at any other moment is covered",
+    "every process spells the lock path as str, bytes or os.PathLike of the same path",
     "only the errno values the code distinguishes are injected (EEXIST, ENOENT, ESRCH, EPERM); any other errno propagates out of lock()",
 ]
 TRUSTED = [
@@ -32,18 +44,29 @@ MANIFEST = {
             "processes and any schedule (TwistedModel/Fs/Lock.lean). Proved for all schedules: at most one holder on every "
             "run in which the stale-lock-breaking branch (kill -> ESRCH) is never taken — in particular with no dead owner's "
             "link and no process exit (mutual_exclusion_partial); a holder can release under any interleaving of the others; "
-            "a dead owner's lock can be acquired by any live process from any of its program points. The full statement is "
-            "FALSE for the code as written and the negation is proved on two schedules (stale initial link; unlock-then-exit), "
-            "both replayed on the real code: the pending rmlink after an ESRCH check deletes another process's live lock.",
+            "a dead owner's lock can be acquired by any live process from any of its program points. Schedules include "
+            "`spawn` (a new process born under a dead pid the link does not name); mutual_exclusion_partial allows it. "
+            "The full statement is FALSE for the code as written and the negation is proved on three schedules (stale "
+            "initial link; unlock-then-exit; robbed holder born under the pid judged dead), all replayed on the real code: "
+            "the pending rmlink after an ESRCH check deletes another process's live lock.",
     "note": "known finding stale-break-removes-live-lock (TOCTOU between readlink/kill/rmlink; not a small fix). Trusts Lean "
             "kernel, the hand-written automaton (tied per primitive, incl. the local `clean` read from the blocked frame), "
-            "the baton scheduler, POSIX atomicity of the four primitives.",
+            "the baton scheduler, POSIX atomicity of the four primitives. The bindings of the four module globals to the os "
+            "functions (and their errno answers) are exercised unpatched on a real directory, sequentially, oracle-only.",
     "technique": "Lean 4 proof (inductive invariant over schedules) + state-exhaustive differential tie on the real code",
     "design_ref": "DESIGN.md §7 C50",
 }
 
-PIDBASE = 100
+PIDBASE = 100            # default of case["base"]: process i has pid base + i
+BASES = [1, 9, 99, 100, 255, 256, 300, 32767, 32768, 65535, 65536, 4194300, 2 ** 31 - 12]
 LOCKNAME = "/nonexistent-C50/lock"
+# how a process spells the lock path (case["names"][i % len]): s = str, b = bytes (os.readlink then answers bytes),
+# p = a pathlib path (os.PathLike); all three spell the SAME path
+_NAMEKIND = {"s": LOCKNAME, "b": os.fsencode(LOCKNAME), "p": pathlib.PurePosixPath(LOCKNAME)}
+
+
+def _norm(filename):
+    return os.fsdecode(os.fspath(filename))
 _ERR = {errno.ENOENT: "ENOENT", errno.EPERM: "EPERM", errno.EEXIST: "EEXIST", errno.ESRCH: "ESRCH"}
 
 
@@ -83,16 +106,17 @@ class _OsShim:
         self._w = world
 
     def getpid(self):
-        return PIDBASE + self._w.current.idx
+        return self._w.base + self._w.current.idx
 
     def __getattr__(self, name):
         return getattr(os, name)
 
 
 class _P:
-    def __init__(self, idx):
+    def __init__(self, idx, kind="s"):
         self.idx = idx
-        self.fl = lockfile.FilesystemLock(LOCKNAME)
+        self.fl = lockfile.FilesystemLock(_NAMEKIND[kind])
+        self.readgen = None     # which link instance the last readlink of this process saw
         self.thread = None      # the worker running this process's current call (None = idle)
         self.pending = None
         self.last = "-"
@@ -107,9 +131,13 @@ def _b(x):
 
 class World:
     def __init__(self, case):
-        self.fs = {}
+        self.base = case.get("base", PIDBASE)
+        self.names = case.get("names", "s") or "s"
+        self.fs = {}             # normalised path → (target, instance number of that link)
+        self.gen = 0
         if case["link"] is not None:
-            self.fs[LOCKNAME] = str(PIDBASE + case["link"])
+            self.fs[LOCKNAME] = (str(self.base + case["link"]), 0)
+        self.zombies = []        # objects of dead processes whose pid was reused (their thread may be parked)
         self.status = {}
         for x in case["alive"]:
             self.status[x] = "a"
@@ -132,7 +160,7 @@ class World:
 
     def proc(self, i):
         if i not in self.procs:
-            self.procs[i] = _P(i)
+            self.procs[i] = _P(i, self.names[i % len(self.names)])
         return self.procs[i]
 
     # ---- the four primitives, executed when the calling process is next scheduled ------------
@@ -152,33 +180,39 @@ class World:
         return f
 
     def do_symlink(self, p, caller, value, filename):
-        if filename in self.fs:
+        if _norm(filename) in self.fs:
             raise OSError(errno.EEXIST, "exists")
-        self.fs[filename] = value
+        self.gen += 1
+        self.fs[_norm(filename)] = (os.fsdecode(value), self.gen)
 
     def do_readlink(self, p, caller, filename):
-        if filename not in self.fs:
+        if _norm(filename) not in self.fs:
             raise OSError(errno.ENOENT, "absent")
-        return self.fs[filename]
+        target, p.readgen = self.fs[_norm(filename)]
+        # like os.readlink: bytes for a bytes path, str for a str / PathLike-of-str path
+        return os.fsencode(target) if isinstance(os.fspath(filename), bytes) else target
 
     def do_kill(self, p, caller, pid, sig):
-        s = self.st(pid - PIDBASE)
-        p.lastkill = pid - PIDBASE
+        s = self.st(pid - self.base)
+        p.lastkill = pid - self.base
         if s == "d":
             raise OSError(errno.ESRCH, "no such process")
         if s == "p":
             raise OSError(errno.EPERM, "not permitted")
 
     def do_rmlink(self, p, caller, filename):
-        if filename not in self.fs:
+        if _norm(filename) not in self.fs:
             raise OSError(errno.ENOENT, "absent")
-        target = self.fs.pop(filename)
+        target, gen = self.fs.pop(_norm(filename))
         if caller == "lock":
             try:
-                t = int(target) - PIDBASE
+                t = int(target) - self.base
             except ValueError:
                 t = None
-            if t != p.lastkill and t is not None and self.st(t) == "a" and self.stolen is None:
+            # the finding's class: the link removed is NOT the link this process read and whose owner it found dead
+            # (another one was created in between), and its owner is alive.  (With pid reuse the new link may even
+            # carry the same pid as the one judged dead: compare link instances, not pids.)
+            if gen != p.readgen and t is not None and self.st(t) == "a" and self.stolen is None:
                 self.stolen = (p.idx, p.lastkill, t)
 
     # ---- scheduler ---------------------------------------------------------------------------
@@ -221,6 +255,16 @@ class World:
 
     def event(self, ev):
         k, i = ev[0], int(ev[1:])
+        if k == "B":
+            # pid reuse: a NEW process (fresh FilesystemLock object) gets the pid of a dead one; the operating system
+            # does not do that while the lock path names the pid (ASSUMES)
+            if self.st(i) == "d" and self.link() != i:
+                old = self.procs.pop(i, None)
+                if old is not None:
+                    self.zombies.append(old)
+                self.status[i] = "a"
+                self.proc(i)
+            return
         p = self.proc(i)
         if self.st(i) != "a":
             return
@@ -255,7 +299,7 @@ class World:
             self.two = sorted(self.holders)
 
     def cleanup(self):
-        for p in self.procs.values():
+        for p in list(self.procs.values()) + self.zombies:
             if p.thread is not None:
                 p.abort = True
                 p.thread.go.release()
@@ -272,7 +316,7 @@ class World:
             if name == "readlink":
                 return "Lr" + _b(clean)
             if name == "kill":
-                return f"Lk{_b(clean)}.{args[0] - PIDBASE}"
+                return f"Lk{_b(clean)}.{args[0] - self.base}"
             if name == "rmlink":
                 return "Lm" + _b(clean)
         if caller == "unlock":
@@ -287,9 +331,9 @@ class World:
         if t is None:
             return None
         try:
-            return int(t) - PIDBASE
+            return int(t[0]) - self.base
         except ValueError:
-            return t
+            return t[0]
 
     def snapshot(self):
         l = self.link()
@@ -342,11 +386,14 @@ _MEMO_MAX = 60000   # deterministic execution of the real code; each case is exe
 
 
 def _key(case):
-    return (case["link"], tuple(case["alive"]), tuple(case["noperm"]), case["n"], tuple(case["ev"]))
+    return (case["link"], tuple(case["alive"]), tuple(case["noperm"]), case["n"], tuple(case["ev"]),
+            case.get("base", PIDBASE), case.get("names", "s"))
 
 
 def _execute(case):
     """run the schedule on the real FilesystemLock objects → (trace line, info)"""
+    if "real" in case:
+        return _execute_real(case)
     k = _key(case)
     if k in _MEMO:
         return _MEMO[k]
@@ -379,6 +426,121 @@ def _execute(case):
         return res
 
 
+# ---- the UNPATCHED module on a real directory ----------------------------------------------------
+# The interposed runs replace symlink/readlink/kill/rmlink wholesale; these cases tie the four module globals themselves
+# (what they are bound to, the argument order they are called with, the errno each answers) to the operating system:
+# one real process (this one), real pids, a real temporary directory, no interleaving.
+#   ops: "Kd" plant a link naming a dead pid, "Kl" plant a link naming a live foreign pid, "K-" remove any link,
+#        "La"/"Ua"/"Lb"/"Ub" lock()/unlock() on FilesystemLock object a / b (same process, same path; b spells it as bytes)
+_REALPIDS = {}
+
+
+def _isdead(pid):
+    try:
+        os.kill(pid, 0)
+    except ProcessLookupError:
+        return True
+    except OSError:
+        pass
+    return False
+
+
+def _realpids():
+    if ("dead" in _REALPIDS and not _isdead(_REALPIDS["dead"])) or ("live" in _REALPIDS and _isdead(_REALPIDS["live"])):
+        _REALPIDS.clear()           # the kernel handed the reaped child's pid out again (or the parent went away): take others
+    if not _REALPIDS:
+        import subprocess
+        for _ in range(20):
+            child = subprocess.Popen([sys.executable, "-c", "pass"])
+            child.wait()
+            try:
+                os.kill(child.pid, 0)
+            except ProcessLookupError:
+                _REALPIDS["dead"] = child.pid      # reaped; not handed out again before the pid counter wraps
+                break
+            except OSError:
+                pass
+        live = os.getppid()
+        _REALPIDS["live"] = live if live > 1 and live != os.getpid() else 1
+    return _REALPIDS
+
+
+def _execute_real(case):
+    k = ("real", tuple(case["real"]))
+    if k in _MEMO:
+        return _MEMO[k]
+    for _ in range(5):
+        pids = dict(_realpids())
+        res = _execute_real_once(case, pids)
+        if ("dead" not in pids or _isdead(pids["dead"])) and not _isdead(pids["live"]):
+            break                   # else: the "dead" pid came back to life during the run (pid reuse on a busy machine): again
+    _MEMO[k] = res
+    return res
+
+
+def _execute_real_once(case, pids):
+    d = tempfile.mkdtemp(prefix="C50-real-")
+    name = os.path.join(d, "the.lock")
+    objs = {"a": lockfile.FilesystemLock(name), "b": lockfile.FilesystemLock(os.fsencode(name))}
+    me = os.getpid()
+
+    def linkclass():
+        try:
+            t = os.readlink(name)
+        except FileNotFoundError:
+            return "-"
+        return {str(me): "own", str(pids.get("dead")): "dead", str(pids["live"]): "live"}.get(t, "?" + t)
+
+    steps = []     # (op, link class before, outcome, link class after)
+    with _RUNLOCK:
+        try:
+            for op in case["real"]:
+                before = linkclass()
+                if op[0] == "K":
+                    if os.path.lexists(name):
+                        os.remove(name)
+                    if op[1] == "d" and "dead" in pids:
+                        os.symlink(str(pids["dead"]), name)
+                    elif op[1] == "l":
+                        os.symlink(str(pids["live"]), name)
+                    res = "-"
+                else:
+                    o = objs[op[1]]
+                    try:
+                        res = repr(o.lock() if op[0] == "L" else o.unlock())
+                    except OSError as e:
+                        res = "!OSError." + _ERR.get(e.errno, errno.errorcode.get(e.errno, str(e.errno)))
+                    except BaseException as e:  # noqa
+                        res = "!" + type(e).__name__
+                steps.append((op, before, res, linkclass()))
+        finally:
+            shutil.rmtree(d, ignore_errors=True)
+    out = "|".join(f"{op}:{b}>{r}>{a}" for op, b, r, a in steps) or "-"
+    return (out, {"steps": steps, "final": "real", "maxh": 0, "pcs": []})
+
+
+def _oracle_real(case, info):
+    """the statement for ONE real process against the real filesystem: lock() acquires a path that is free or names a dead
+    pid (and the link then names this process); lock() does not acquire and leaves the link alone while a live process
+    owns it; the holder's unlock() returns and leaves the path free; unlock() leaves a live foreign owner's link alone."""
+    for n, (op, before, res, after) in enumerate(info["steps"]):
+        bad = None
+        if op[0] == "L":
+            if before in ("-", "dead") and not (res == "True" and after == "own"):
+                bad = ("stale-not-acquirable" if before == "dead" else "free-not-acquirable")
+            elif before in ("own", "live") and (res == "True" or after != before):
+                bad = "two-holders"          # acquired, or touched the link, while a live process owns it
+        elif op[0] == "U":
+            if before == "own" and not (res == "None" and after == "-"):
+                bad = "holder-cannot-release"
+            elif before == "live" and after != "live":
+                bad = "two-holders"
+        if bad:
+            return {"key": "real-" + bad, "detail": f"unpatched lockfile on a real directory, step {n} {op}: link {before} "
+                                                    f"-> outcome {res}, link {after}; all steps {info['steps']}"}
+    return None
+
+
 def run_impl(case):
     return _execute(case)[0]
 
@@ -388,6 +550,9 @@ def _info(case):
 
 
 def model_line(c):
+    if "real" in c:
+        return None          # oracle-only: one real process on the real filesystem (the model's atomic steps are not observable)
+
     def lst(xs):
         return ",".join(str(x) for x in xs) if xs else "-"
     return (f"run {'-' if c['link'] is None else c['link']} {lst(c['alive'])} {lst(c['noperm'])} {c['n']} "
@@ -400,7 +565,9 @@ def oracle(case, out):
     if out.startswith("!raised"):
         return {"key": "harness-raised", "detail": out}
     info = _info(case)
-    # the finding's class: a process judged pid x dead (ESRCH) and its later rmlink removed the link of a LIVE pid y
+    if "real" in case:
+        return _oracle_real(case, info)
+    # the finding's class: a process judged a link's owner dead (ESRCH) and its later rmlink removed ANOTHER, live process's link
     cls = "stale-break-removes-live-lock" if info["stolen"] else None
     if info["two"]:
         return {"key": cls or "two-holders",
@@ -424,24 +591,37 @@ def _linkclass(c):
     return "stale"
 
 
+def _baseclass(c):
+    b = c.get("base", PIDBASE)
+    return "small" if b + c["n"] <= 256 else "mid" if b + c["n"] <= 32768 else "big"
+
+
 def tag(c, out):
     info = _info(c)
+    if "real" in c:
+        return "real:" + ",".join(sorted({f"{op[0]}{b}>{r}" for op, b, r, a in info["steps"]}))
     outcomes = sorted({f.split(":")[4] for f in info["final"].split(";")[1:]})
-    return (f"n{c['n']}:{_linkclass(c)}:{'x' if any(e[0] == 'X' for e in c['ev']) else ''}:h{info['maxh']}:"
-            f"{','.join(outcomes)}:{''.join(info['pcs'])}")
+    return (f"n{c['n']}:{_linkclass(c)}:{'x' if any(e[0] == 'X' for e in c['ev']) else ''}"
+            f"{'b' if any(e[0] == 'B' for e in c['ev']) else ''}:h{info['maxh']}:"
+            f"{','.join(outcomes)}:{''.join(info['pcs'])}:{_baseclass(c)}:{''.join(sorted(set(c.get('names', 's'))))}")
 
 
 def nontrivial(c, out):
-    return bool(c["ev"])
+    return bool(c.get("real") or c.get("ev"))
 
 
 # ---- cases ------------------------------------------------------------------------------------
 
-def _case(link, alive, noperm, n, ev):
-    return {"link": link, "alive": list(alive), "noperm": list(noperm), "n": n, "ev": list(ev)}
+def _case(link, alive, noperm, n, ev, base=PIDBASE, names="s"):
+    return {"link": link, "alive": list(alive), "noperm": list(noperm), "n": n, "ev": list(ev), "base": base, "names": names}
+
+
+def _real(*ops):
+    return {"real": list(ops)}
 
 
 W_STALE = _case(7, [0, 1], [], 2, ["L1", "S1", "S1", "S1", "L0", "S0", "S0", "S0", "S0", "S0", "S1", "S1"])
+W_REUSE = _case(1, [0, 2], [], 3, ["L0", "S0", "S0", "S0", "L2", "S2", "S2", "S2", "S2", "S2", "U2", "S2", "S2", "B1", "L1", "S1", "S0", "S0"])
 W_EXIT = _case(None, [0, 1, 2], [], 3, ["L0", "S0", "L1", "S1", "S1", "U0", "S0", "S0", "X0", "L2", "S2", "S1", "S1", "S1"])
 
 
@@ -458,38 +638,58 @@ def corpus():
         _case(None, [0], [], 1, ["U0", "S0", "L0", "S0", "L0", "S0", "S0", "S0"]),  # unlock unlocked; lock twice
         _case(None, [0, 1], [], 2, ["L0", "S0", "L1", "S1", "U0", "S0", "S0", "S1", "S1"]),  # link vanishes before readlink
         _case(None, [0, 1], [], 2, []),
+        # --- white-box mutation audit (harness/mutants/C50) ---
+        W_REUSE,                                             # the finding again, the robbed holder born under the pid judged dead
+        # pid reuse AFTER the stale link is gone: 0 breaks dead pid 1's lock, releases; a new pid-1 process locks; 0 must be refused
+        _case(1, [0], [], 2, ["L0", "S0", "S0", "S0", "S0", "S0", "U0", "S0", "S0", "B1", "L1", "S1",
+                              "L0", "S0", "S0", "S0", "U1", "S1", "S1"], base=300, names="sb"),
+        # pids above the small-int cache / above 2**15 / 2**16 / 2**22; bytes and PathLike spellings of the path
+        _case(None, [0, 1], [], 2, ["L0", "S0", "L1", "S1", "S1", "S1", "U0", "S0", "S0", "L1", "S1", "U1", "S1", "S1"], base=256, names="sb"),
+        _case(None, [0, 1], [], 2, ["L0", "S0", "L1", "S1", "S1", "S1", "U0", "S0", "S0", "L1", "S1", "U1", "S1", "S1"], base=40000, names="bp"),
+        _case(7, [0, 1], [], 2, ["L1", "S1", "S1", "S1", "S1", "S1", "L0", "S0", "S0", "S0", "U1", "S1", "S1"], base=4194300, names="pb"),
+        _case(7, [0], [], 1, ["L0", "S0", "S0", "S0", "S0", "S0", "U0", "S0", "S0"], base=2 ** 31 - 12, names="b"),
+        # the unpatched module on a real directory
+        _real("La", "Lb", "Ua", "La", "Ub", "Ub"),
+        _real("Kd", "La", "Ua", "Kd", "Lb", "Ub"),
+        _real("Kl", "La", "Ua", "Lb", "Ub", "K-", "La", "Ua"),
     ]
 
 
-def _explore(link, alive, noperm, n, programs, crashes, crashable, limit):
-    """Breadth-first over the states of the REAL code: every reachable state once, every edge out of it a case."""
-    rec = {"link": link, "n": n, "programs": programs, "crashes": crashes, "cases": 0, "states": 0, "exhausted": True}
+def _explore(link, alive, noperm, n, programs, crashes, crashable, limit, base=PIDBASE, names="s", births=0):
+    """Breadth-first over the states of the REAL code: every reachable state once, every edge out of it a case.
+    `births`: how many times a dead participant's pid may be given to a new process (which runs its program from the start)."""
+    rec = {"link": link, "n": n, "programs": programs, "crashes": crashes, "births": births, "base": base, "names": names,
+           "cases": 0, "states": 0, "exhausted": True}
     _EXPLORED.append(rec)
     seen = set()
-    frontier = [([], tuple(0 for _ in programs), crashes, None)]
+    frontier = [([], tuple(0 for _ in programs), (crashes, births), None)]
     count = 0
     while frontier:
         nxt = []
         for path, pos, cr, final in frontier:
             fields = final.split(";")[1:] if path else None
+            curlink = final.split(";")[0] if path else ("-" if link is None else str(link))
             for i in range(n):
                 if fields is None:
-                    status, pc = ("a" if i in alive else "d"), "I"
+                    status, pc = ("a" if i in alive else "p" if i in noperm else "d"), "I"
                 else:
                     status, pc = fields[i].split(":")[0:2]
-                if status != "a":
+                if status == "d" and cr[1] > 0 and curlink != str(i):
+                    succ = [(f"B{i}", pos[:i] + (0,) + pos[i + 1:], (cr[0], cr[1] - 1))]
+                elif status != "a":
                     continue
-                succ = []
-                if pc == "I":
+                else:
+                    succ = []
+                if status == "a" and pc == "I":
                     if pos[i] < len(programs[i]):
                         succ.append((programs[i][pos[i]] + str(i), pos[:i] + (pos[i] + 1,) + pos[i + 1:], cr))
-                else:
+                elif status == "a":
                     succ.append((f"S{i}", pos, cr))
-                if cr > 0 and i in crashable:
-                    succ.append((f"X{i}", pos, cr - 1))
+                if status == "a" and cr[0] > 0 and i in crashable:
+                    succ.append((f"X{i}", pos, (cr[0] - 1, cr[1])))
                 for ev, pos2, cr2 in succ:
                     p2 = path + [ev]
-                    c2 = _case(link, alive, noperm, n, p2)
+                    c2 = _case(link, alive, noperm, n, p2, base, names)
                     _, inf2 = _execute(c2)
                     count += 1
                     rec["cases"] = count
@@ -520,6 +720,8 @@ def _holders_sig(info):
 def _walk(rng, n, length):
     link = rng.choice([None, None, 7, 7, 7, 8, 9, 0, 1])
     alive = list(range(n)) + [9]
+    if n > 1 and rng.random() < 0.3:
+        alive.remove(rng.randrange(n))          # a participant pid that is dead at the start (may be born later)
     noperm = [8]
     ev = []
     busy = [False] * n      # a guess only (steers the mix of events; ill-timed events are no-ops on both sides)
@@ -528,6 +730,9 @@ def _walk(rng, n, length):
         r = rng.random()
         if r < 0.04:
             ev.append(f"X{i}")
+        elif r < 0.09:
+            ev.append(f"B{i}")
+            busy[i] = False
         elif not busy[i] or r < 0.12:
             ev.append(("L" if rng.random() < 0.65 else "U") + str(i))
             busy[i] = True
@@ -535,48 +740,73 @@ def _walk(rng, n, length):
             ev.append(f"S{i}")
             if rng.random() < 0.25:
                 busy[i] = False
-    return _case(link, alive, noperm, n, ev)
+    return _case(link, alive, noperm, n, ev, rng.choice(BASES), rng.choice(["s", "s", "b", "p", "sb", "bs", "sbp", "pbs"]))
+
+
+_REAL_OPS = ["La", "Lb", "Ua", "Ub", "La", "Lb", "Ua", "Ub", "Kd", "Kl", "K-"]
 
 
 def generate(rng, tier):
     quick = tier == "quick"
+    K = dict
     fams = [
-        # (link, alive, noperm, n, per-process programs, crash budget, who may crash, case limit)
-        (7, [0, 1], [], 2, ["L", "L"], 0, [], 4000),
-        (7, [0, 1], [], 2, ["LU", "LU"], 0, [], 4000),
-        (7, [0, 1], [], 2, ["LU", "LU"], 1, [0, 1], 6000),
-        (None, [0, 1], [], 2, ["LU", "LU"], 1, [0], 4000),
-        (None, [0, 1, 2], [], 3, ["LU", "L", "L"], 1, [0], 4000),
-        (7, [0, 1, 2], [], 3, ["L", "L", "L"], 0, [], 6000),
-        (8, [0, 1], [8], 2, ["LU", "L"], 0, [], 1000),
-        (9, [0, 1, 9], [], 2, ["LU", "UL"], 0, [], 1000),
-        (0, [0, 1], [], 2, ["UL", "LU"], 0, [], 1000),       # link names a live participant that never locked
+        # (link, alive, noperm, n, per-process programs, crash budget, who may crash, case limit), {pid base, path spellings, births}
+        ((7, [0, 1], [], 2, ["L", "L"], 0, [], 4000), K()),
+        ((7, [0, 1], [], 2, ["LU", "LU"], 0, [], 4000), K(base=300, names="sb")),
+        ((7, [0, 1], [], 2, ["LU", "LU"], 1, [0, 1], 6000), K(base=65536, names="bs")),
+        ((None, [0, 1], [], 2, ["LU", "LU"], 1, [0], 4000), K(base=255, names="sp")),
+        ((None, [0, 1, 2], [], 3, ["LU", "L", "L"], 1, [0], 4000), K(base=4194300, names="sbp")),
+        ((7, [0, 1, 2], [], 3, ["L", "L", "L"], 0, [], 6000), K(base=9, names="bbs")),
+        ((8, [0, 1], [8], 2, ["LU", "L"], 0, [], 1000), K(base=32767)),
+        ((9, [0, 1, 9], [], 2, ["LU", "UL"], 0, [], 1000), K(base=100000, names="b")),
+        ((0, [0, 1], [], 2, ["UL", "LU"], 0, [], 1000), K(base=1, names="ps")),       # link names a live participant that never locked
+        # the same small protocols once more with the plain spelling / small pids swapped for bytes paths and large pids
+        ((None, [0, 1], [], 2, ["LU", "LU"], 0, [], 1000), K(base=2 ** 31 - 12, names="b")),
+        ((7, [0, 1], [], 2, ["LU", "L"], 0, [], 1000), K(base=32768, names="pb")),
+        # pid reuse: the dead owner's pid (a participant) is given to a new process once the link no longer names it;
+        # the object that broke the stale lock locks again
+        ((1, [0], [], 2, ["LUL", "LU"], 0, [], 3000), K(births=1)),
+        ((None, [0, 1], [], 2, ["LUL", "LU"], 1, [1], 3000), K(base=70000, names="sb", births=1)),
     ]
     if not quick:
         fams += [
-            (7, [0, 1, 2], [], 3, ["LU", "LU", "L"], 0, [], 60000),
-            (None, [0, 1, 2], [], 3, ["LUL", "LU", "UL"], 1, [0, 1], 60000),
-            (7, [0, 1, 2], [], 3, ["LU", "LU", "LU"], 0, [], 60000),
-            (7, [0, 1, 2, 3], [], 4, ["L", "L", "L", "L"], 0, [], 60000),
-            (None, [0, 1, 2, 3], [], 4, ["LU", "L", "L", "L"], 1, [0], 60000),
+            ((7, [0, 1, 2], [], 3, ["LU", "LU", "L"], 0, [], 60000), K(base=256, names="sbp")),
+            ((None, [0, 1, 2], [], 3, ["LUL", "LU", "UL"], 1, [0, 1], 60000), K(base=65535, names="bps")),
+            ((7, [0, 1, 2], [], 3, ["LU", "LU", "LU"], 0, [], 60000), K()),
+            ((7, [0, 1, 2, 3], [], 4, ["L", "L", "L", "L"], 0, [], 60000), K(base=99, names="sb")),
+            ((None, [0, 1, 2, 3], [], 4, ["LU", "L", "L", "L"], 1, [0], 60000), K(base=4194300, names="b")),
+            ((2, [0, 1], [], 3, ["LUL", "LU", "L"], 0, [], 30000), K(base=300, names="sbp", births=1)),
+            ((None, [0, 1, 2], [], 3, ["LUL", "LU", "L"], 1, [1], 30000), K(births=1)),
         ]
-    for f in fams:
-        yield from _explore(*f)
+    for f, kw in fams:
+        yield from _explore(*f, **kw)
+    for _ in range(60 if quick else 600):
+        yield _real(*[rng.choice(_REAL_OPS) for _ in range(rng.choice([4, 8, 12]))])
     for _ in range(3000 if quick else 25000):
         yield _walk(rng, rng.choice([1, 2, 2, 3, 3, 4]), rng.choice([6, 12, 20, 30, 45]))
 
 
 def shrink(c):
+    if "real" in c:
+        ops = c["real"]
+        for i in range(len(ops)):
+            yield {"real": ops[:i] + ops[i + 1:]}
+        return
     ev = c["ev"]
     for i in range(len(ev)):
         yield c | {"ev": ev[:i] + ev[i + 1:]}
     if c["n"] > 1 and not any(int(e[1:]) == c["n"] - 1 for e in ev):
         yield c | {"n": c["n"] - 1}
+    if c.get("names", "s") != "s":
+        yield c | {"names": "s"}
+    if c.get("base", PIDBASE) != PIDBASE:
+        yield c | {"base": PIDBASE}
 
 
 def search(rng, tier, disagreeing):
     """Property-directed: state-exhaustive exploration around the stale-lock branch + long walks."""
-    yield from _explore(7, [0, 1], [], 2, ["LU", "LU"], 1, [0, 1], 30000)
+    yield from _explore(7, [0, 1], [], 2, ["LU", "LU"], 1, [0, 1], 30000, base=65536, names="bs")
     yield from _explore(None, [0, 1, 2], [], 3, ["LU", "LU", "L"], 1, [0], 30000)
+    yield from _explore(1, [0], [], 2, ["LUL", "LU"], 1, [0, 1], 30000, base=300, names="sb", births=1)
     for _ in range(5000):
         yield _walk(rng, rng.choice([2, 3]), 40)
